@@ -58,7 +58,7 @@ func vArmFault()             {}
 func vDisarmFault() bool     { return false }
 func vPowerLossMode(on bool) {}
 func vFewCuts(on bool)       {}
-func vPowerFail(dir string)  {}
+func vPowerFail(dir string) bool { return false }
 func vImageSave(dir string)  {}
 
 func vImageLoad(dir string) {
